@@ -79,12 +79,12 @@ func reqSelFrom(set gast.SelectionSet) *reqSel {
 }
 
 type schemaModel struct {
-	s        *gast.Schema
-	resolver map[string]bool    // "Type.field" has @connect__fieldResolver
-	requires map[string]string  // "Type.field" -> @requires fields text
-	reqSels  map[string]*reqSel // "Type.field" -> parsed
-	external map[string]bool    // "Type.field" is @external
-	entities []string           // types with @key
+	s                           *gast.Schema
+	resolver                    map[string]bool    // "Type.field" has @connect__fieldResolver
+	requires                    map[string]string  // "Type.field" -> @requires fields text
+	reqSels                     map[string]*reqSel // "Type.field" -> parsed
+	external                    map[string]bool    // "Type.field" is @external
+	entities                    []string           // types with @key
 	queryFields, mutationFields []string
 }
 
